@@ -45,6 +45,12 @@ class StorageUnitLabel:
         if max_record_length > self.max_record_length_limit:
             raise ValueError(f"Max record length cannot be larger than {self.max_record_length_limit}")
 
+    def __setattr__(self, key: str, value: Any) -> None:
+        if key == 'set_identifier':
+            value = validate_string(value)  # an identifier given later is held to the same rules as one given at creation
+
+        super().__setattr__(key, value)
+
     def __repr__(self) -> str:
         return (f"{self.__class__.__name__}(sequence_number={self.sequence_number}, "
                 f"set_identifier={self.set_identifier}, max_record_length={self.max_record_length})")
